@@ -10,6 +10,7 @@ side condition can be checked syntactically; anything else is left alone (and th
   3. a guard clause `if c: A; return` followed by R (in a method that returns nothing) becomes `if c: A  else: R`;
   4. a local bound ONCE to a side-effect-free expression whose ingredients are not re-bound afterwards (`order = cancel.order`,
      `previous_time = self.time - 1`, `book = (self.buy_order_book if order.is_buy else self.sell_order_book)`) is substituted away;
+  4b. a local bound to a comparison or a subscript and read only by the statement that immediately follows is moved into it;
   5. `(A if c else B)[i] op= e`  becomes  `if c: A[i] op= e  else: B[i] op= e`  (c side-effect-free)."""
 import ast
 import copy
@@ -219,6 +220,53 @@ def aliases(body, keep=()):
     return go(body, {})
 
 
+def _uses(node, name):
+    return sum(1 for n in ast.walk(node) if isinstance(n, ast.Name) and n.id == name and isinstance(n.ctx, ast.Load))
+
+
+def _simple(e):
+    """a comparison or a subscript of side-effect-free parts: its value may depend on mutable state, so it is only moved into the
+    statement that immediately follows"""
+    if isinstance(e, ast.Compare):
+        return all(pure(x) or _simple(x) for x in [e.left] + list(e.comparators))
+    if isinstance(e, ast.Subscript):
+        return pure(e.value) and (pure(e.slice) or isinstance(e.slice, ast.Constant))
+    return False
+
+
+def next_use(body):
+    """step 4b: `x = <comparison or subscript>` immediately followed by the only statement that reads x (in its own expression or, for
+    an `if`, in its test) and never re-bound: substituted there"""
+    out, i = [], 0
+    while i < len(body):
+        s = body[i]
+        if (isinstance(s, (ast.Assign, ast.AnnAssign)) and getattr(s, "value", None) is not None and len(_targets(s)) == 1
+                and isinstance(_targets(s)[0], ast.Name) and _simple(s.value) and i + 1 < len(body)):
+            x = _targets(s)[0].id
+            nxt = body[i + 1]
+            head = nxt.test if isinstance(nxt, ast.If) else nxt
+            everywhere = sum(_uses(q, x) for q in body[i + 1:])
+            stores = sum(1 for q in body for n in ast.walk(q) if isinstance(n, ast.Name) and n.id == x and isinstance(n.ctx, ast.Store))
+            if not isinstance(nxt, (ast.For, ast.While)) and _uses(head, x) == 1 and everywhere == 1 and stores == 1:
+                if isinstance(nxt, ast.If):
+                    q = copy.deepcopy(nxt)
+                    q.test = _Subst({x: s.value}).visit(q.test)
+                    q.body = next_use(q.body)
+                    q.orelse = next_use(q.orelse)
+                else:
+                    q = _Subst({x: s.value}).visit(copy.deepcopy(nxt))
+                out.append(ast.fix_missing_locations(q))
+                i += 2
+                continue
+        if isinstance(s, (ast.If, ast.For)):
+            s = copy.deepcopy(s)
+            s.body = next_use(s.body)
+            s.orelse = next_use(s.orelse)
+        out.append(s)
+        i += 1
+    return out
+
+
 def split_cells(body):
     out = []
     for s in body:
@@ -247,5 +295,6 @@ def normalise(fn, cls, returns_none, keep=()):
     if returns_none:
         body = guards(body)
     body = aliases(body, keep)
+    body = next_use(body)
     body = split_cells(body)
     return [ast.fix_missing_locations(s) for s in body]
